@@ -93,6 +93,8 @@ def check_unit(case):
         if row.alignedPairs:
             rows.append(row)
     rows = rows[:case.get("nrows", 3)]
+    if case.get("tile") and rows:
+        rows = [rows[i % len(rows)] for i in range(case["tile"])]      # a result set of a thousand records and more
     buf = io.StringIO()
     args = argparse.Namespace(referenceFile="ref.cmap", queryFile="qry.cmap", outputMode="best")
     sut(XmapReader().writeAlignments, buf, AlignmentResults("ref.cmap", "qry.cmap", rows), args)
@@ -102,6 +104,9 @@ def check_unit(case):
     except xmap_text.XmapFormatError as e:
         req(False, "xmap-malformed", str(e))
     req(len(parsed["records"]) == len(rows), "writer-record-count", f"{len(rows)} rows written as {len(parsed['records'])} records")
+    ids = [r["XmapEntryID"] for r in parsed["records"]]
+    bad = next((i for i, x in enumerate(ids, 1) if x != str(i)), None)
+    req(bad is None, "entry-ids-not-1-2-3", f"record {bad} of {len(ids)} carries XmapEntryID {ids[bad - 1] if bad else None}")
     reader = XmapReader(XmapAlignmentPairWithDistanceParser([ref], [qry]))
     als = sut(reader.readAlignments, io.StringIO(text))
     R = {"labels": case["ref"]}
@@ -118,6 +123,14 @@ def check_unit(case):
 
 
 @st.composite
+def many_records_strategy(draw):
+    c = draw(gen_unit.aligner_case(1, 4))
+    c["nrows"] = 3
+    c["tile"] = draw(st.sampled_from([999, 1000, 1001, 1024, 2001, 2300, 4097]))
+    return c
+
+
+@st.composite
 def unit_strategy(draw):
     c = draw(gen_unit.aligner_case(1, 5))
     c["nrows"] = draw(st.sampled_from([0, 1, 2, 3]))
@@ -131,4 +144,6 @@ def subchecks(tier):
             shrink_budget=100, sample_filter=gen_maps.short_case, required_classes=("zero-record-file", "one-record-file", "multi-record-file", "confidence-with-second-decimal")),
         Sub("writer-reader-unit", "hyp", check_unit, strategy=unit_strategy, examples=5000 if q else 100000, shrink_budget=300,
             required_classes=("rows=0", "rows=1")),
+        Sub("many-records", "hyp", check_unit, strategy=many_records_strategy, examples=48 if q else 800, shrink_budget=6,
+            describe="999-4097 records in one file (rows of a unit-level alignment repeated): entry ids 1,2,3,..., read back in order"),
     ]
